@@ -380,7 +380,7 @@ def oracle_expr(case, mode, obs):
     if k == 'inv':
         return 'holds_inv %s %s' % (_ops(case), o)
     if k == 'runner':
-        return 'holds_runner %s %s' % (_cfg(case), o)
+        return 'holds_runner %s %s %s %s' % (_cfg(case), _bools(case['pre']), _witems(case['w']), o)
     if k == 'thr':
         return 'holds_thr %s %s %s' % (STRAT[case['st']], WPAT[case['w']], o)
     raise ValueError(k)
